@@ -372,3 +372,55 @@ func Harness_C17_health_round_failover() {
 	}
 	verifReach("end")
 }
+
+// ---- histories: three arbitrary events in a row on one node - a vote request from b or c, an election this
+// node itself starts (it votes for itself in the new term), a health check from a leader. A ghost record keeps
+// every vote the node cast; whatever the history, no two votes of the same term go to different candidates.
+// (A single step cannot see a vote remembered across events: the memory may live in any field.)
+func Harness_C17_vote_history() {
+	c := verifClusterWith(2, 5, "")
+	type cast struct {
+		term int
+		for_ string
+	}
+	var votes []cast
+	for step := 0; step < 3; step++ {
+		term0 := c.fo.term
+		switch verifChoose("event", 3) {
+		case 0:
+			node := []string{"b", "c"}[verifChoose("candidate", 2)]
+			reqTerm := verifNondetInt("reqTerm")
+			verifAssume(reqTerm >= 0 && reqTerm < 64)
+			resp := make(chan ClusterVoteResponse, 1)
+			c.fo.electionVote <- &ClusterVote{req: &ClusterVoteRequest{Node: node, Term: reqTerm}, resp: resp}
+			verifRunOnce(c)
+			r := <-resp
+			if r.Result {
+				votes = append(votes, cast{reqTerm, node})
+			}
+		case 1:
+			verifVoteReplies, verifVoteIdx = nil, 0
+			for i := 0; i < 2; i++ {
+				verifVoteReplies = append(verifVoteReplies, verifVoteReply{lost: verifNondetBool("lost"), result: verifNondetBool("granted"), term: term0})
+			}
+			if !verifIsSymbolicEngine() {
+				verifNativeEndpoints(c)
+			}
+			c.electLeader()
+			votes = append(votes, cast{c.fo.term, "a"})
+		case 2:
+			hTerm := verifNondetInt("healthTerm")
+			verifAssume(hTerm >= 0 && hTerm < 64)
+			leader := []string{"b", "c"}[verifChoose("healthLeader", 2)]
+			c.fo.healthCheck <- &ClusterHealth{Leader: leader, Term: hTerm, Signature: c.ring.Signature(), Nodes: []string{"a", "b", "c"}}
+			verifRunOnce(c)
+		}
+		verifAssert(c.fo.term >= term0, "term-never-decreases")
+	}
+	for i := 0; i < len(votes); i++ {
+		for j := i + 1; j < len(votes); j++ {
+			verifAssert(votes[i].term != votes[j].term || votes[i].for_ == votes[j].for_, "at-most-one-vote-per-term-over-a-history")
+		}
+	}
+	verifReach("end")
+}
